@@ -54,7 +54,8 @@ def _ConvertFunctionType(ft: LinearIR.FunctionType) -> WebAssembly.FunctionType:
     for argType in ft.Arguments.values():
         argTypes.append(_ConvertType(argType))
 
-    resultTypes.append(_ConvertType(ft.ReturnType))
+    if not ft.ReturnType.IsVoid():
+        resultTypes.append(_ConvertType(ft.ReturnType))
 
     return WebAssembly.FunctionType(argTypes, resultTypes)
 
@@ -220,6 +221,7 @@ class GenerateWasmVisitor(Visitor.DefaultVisitor):
         functionType = _ConvertFunctionType(
             cast(LinearIR.FunctionType, function.Type)
         )
+        ctx.Module.AddFunction(ctx.Module.AddFunctionType(functionType))
 
         # Check if function is exported - for now assume yes
 
